@@ -133,15 +133,19 @@ and real connection objects to check that the code has no hidden shared/cleared 
 inductive Op where
   | recv (chunk : Bytes)      -- `data_received(chunk)`
   | send (data : Bytes)       -- the application sends something on the same connection
+  | ctl (tag : Nat)           -- any other operation that is not a read: `enable_encryption`, the
+                              -- caller of a pending request giving up (timeout / cancel), …
 
 def Op.recvs : List Op → List Bytes
   | [] => []
   | .recv c :: r => c :: Op.recvs r
   | .send _ :: r => Op.recvs r
+  | .ctl _ :: r => Op.recvs r
 
 def stepOp (f : Framer M) (o : Out M) : Op → Out M
   | .recv c => feedAllFrom f o [c]
   | .send _ => o
+  | .ctl _ => o
 
 def runOps (f : Framer M) (o : Out M) (ops : List Op) : Out M := ops.foldl (stepOp f) o
 
